@@ -39,7 +39,8 @@ def replacement_pool():
         T(G.VAL, '"s"', "quoted:word", True, value="s"), T(G.LP, "("), T(G.RP, ")"),
         T(G.LB, "{"), T(G.RB, "}"), T(G.COMMA, ","), T(G.SEMI, ";"),
         T(G.UNITS, "<m>"), T(G.BEGIN, "GROUP", "group"),
-        T(G.BEGIN, "OBJECT", "object"),
+        T(G.BEGIN, "OBJECT", "object"), T(G.BEGIN, "BEGIN_GROUP", "group"),
+        T(G.BEGIN, "begin_object", "object"),
         T(G.ENDKW, "END_GROUP", "group"), T(G.ENDKW, "END_OBJECT", "object"),
         T(G.END, "END"),
         T(G.DAMAGED, '"abc', "open-double-quote"),
